@@ -814,6 +814,24 @@ class Sim:
                     if st == "exc" or v is not False:
                         self.fail("mapping:eq-true-for-different", what="one more (duplicated) row", got=v if st == "ok" else exc_name(v),
                                   rows=len(next(iter(self.model[b][c].values()))))
+        # ... and a store with one block more or one block fewer, whichever side it stands on (also the empty store)
+        for what in ("one more block", "one block fewer"):
+            st, other = call(self.durable_copy, f)
+            if st == "exc":
+                break
+            if what == "one more block":
+                other["extra_block_zz"] = self.S.Block()
+            elif self.model:
+                del other[next(iter(self.model))]
+            else:
+                continue
+            for side, fn in (("left", lambda: f == other), ("right", lambda: other == f)):
+                st, v = call(fn)
+                if st == "exc" or v is not False:
+                    self.fail("mapping:eq-true-for-different", what=what, live_store_on=side, got=v if st == "ok" else exc_name(v))
+            st, v = call(lambda: f != other)
+            if st == "exc" or v is not True:
+                self.fail("mapping:ne-false-for-different", what=what, got=v if st == "ok" else exc_name(v))
         st, v = call(lambda: f == 5)
         if st == "exc" or v is not False:
             self.fail("mapping:eq-other-type", got=v if st == "ok" else exc_name(v))
